@@ -780,6 +780,10 @@ def _fold_constants(stmts: List[ast.stmt]) -> List[ast.stmt]:
 
         def visit_Compare(self, node):
             self.generic_visit(node)
+            if len(node.ops) == 1 and isinstance(node.left, ast.Constant) and isinstance(node.comparators[0], ast.Constant) \
+                    and isinstance(node.ops[0], (ast.Eq, ast.NotEq)) and type(node.left.value) is type(node.comparators[0].value):
+                eq = node.left.value == node.comparators[0].value
+                return ast.copy_location(ast.Constant(value=eq if isinstance(node.ops[0], ast.Eq) else not eq), node)
             if len(node.ops) == 1 and isinstance(node.ops[0], (ast.Is, ast.IsNot)) and isinstance(node.left, ast.Name) and isinstance(node.comparators[0], ast.Name):
                 a, b = node.left.id, node.comparators[0].id
                 same = None
@@ -1437,6 +1441,8 @@ def _unroll_table_loops(body: List[ast.stmt], table_of) -> bool:
                                     continue
                                 kept.append(a_)
                             assigns = kept
+                            if len(kept) < len(pairs):
+                                copy_body = _fold_constants(copy_body) or [ast.Pass()]
                         if uses_continue:
                             class _C(ast.NodeTransformer):
                                 def visit_For(self, n):
